@@ -7,6 +7,7 @@
 (* ExpEnc[c+1] are the SIDs at code c (0 = .notdef) of the Standard and     *)
 (* Expert encodings; the charsets list the SID of glyph i at index i+1.     *)
 (***************************************************************************)
+EXTENDS Integers
 NStd == 391
 StdStr == <<
   ".notdef", "space", "exclam", "quotedbl", "numbersign", "dollar", "percent", "ampersand",
@@ -103,5 +104,23 @@ ExpertSubsetCharset == <<
   109, 110, 267, 268, 269, 270, 272, 300, 301, 302, 305, 314, 315, 158, 155, 163, 320, 321, 322,
   323, 324, 325, 326, 150, 164, 169, 327, 328, 329, 330, 331, 332, 333, 334, 335, 336, 337, 338,
   339, 340, 341, 342, 343, 344, 345, 346
+>>
+
+(* Default values of DICT operators: TN5176 Table 9 (Top DICT), Table 10 (CIDFont extensions),   *)
+(* Table 23 (Private DICT).  <<operator (12 x numbered 1200 + x), name, default as <<m, e>> = m * 10^e>>. *)
+(* Array-valued defaults (FontMatrix, FontBBox) are listed by their distinct element values.   *)
+DictDefaults == <<
+  <<1201, "isFixedPitch", <<0, 0>> >>, <<1202, "ItalicAngle", <<0, 0>> >>,
+  <<1203, "UnderlinePosition", <<-100, 0>> >>, <<1204, "UnderlineThickness", <<50, 0>> >>,
+  <<1205, "PaintType", <<0, 0>> >>, <<1206, "CharstringType", <<2, 0>> >>,
+  <<1207, "FontMatrix", <<1, -3>> >>, <<1207, "FontMatrix (off-diagonal)", <<0, 0>> >>,
+  <<5, "FontBBox", <<0, 0>> >>, <<1208, "StrokeWidth", <<0, 0>> >>,
+  <<15, "charset", <<0, 0>> >>, <<16, "Encoding", <<0, 0>> >>,
+  <<1231, "CIDFontVersion", <<0, 0>> >>, <<1232, "CIDFontRevision", <<0, 0>> >>,
+  <<1233, "CIDFontType", <<0, 0>> >>, <<1234, "CIDCount", <<8720, 0>> >>,
+  <<1209, "BlueScale", <<39625, -6>> >>, <<1210, "BlueShift", <<7, 0>> >>, <<1211, "BlueFuzz", <<1, 0>> >>,
+  <<1214, "ForceBold", <<0, 0>> >>, <<1217, "LanguageGroup", <<0, 0>> >>,
+  <<1218, "ExpansionFactor", <<6, -2>> >>, <<1219, "initialRandomSeed", <<0, 0>> >>,
+  <<20, "defaultWidthX", <<0, 0>> >>, <<21, "nominalWidthX", <<0, 0>> >>
 >>
 =============================================================================
